@@ -5,7 +5,7 @@ from lib import wire
 from lib.shrink import shrink_seq
 
 TABLES = ['T18']
-RULE = ('histories of addEvent/addPeriodicEvent/removeEvent/rescheduleEvent/run/clock-advance (ties, past times, name reuse, auto names, '
+RULE = ('histories of addEvent/addPeriodicEvent/removeEvent/rescheduleEvent/run/clock-advance (ties, past times, name reuse, auto names, names of every hashable kind: counter ints, strs with and without % directives, tuples of 0-3 strs, '
         'raising functions, functions that take time, events that add/remove/reschedule events while running, wrong arity) are '
         'interpreted on a fresh real schedule.Schedule() with a virtual clock and instrumented event functions, and on the extracted '
         'model fed with the names the real heappop returned (tie-break oracle); after every operation the result/exception, heap '
@@ -39,12 +39,33 @@ class Runaway(BaseException):
     pass
 
 
+# event names of every hashable kind ("name must be hashable and not an int"): Named k is a str for k < 8 -- some with
+# % directives in them -- and a tuple of k - 8 strs for k >= 8 (the model only needs to know how many values
+# `template % name` would supply: Model.fmt_args)
+STR_NAMES = {0: 'e0', 1: 'e1', 2: 'e2', 3: 'e%s', 4: '%d%%x', 5: 'e5', 6: '%(k)s', 7: 'e7'}
+TUPLE_PARTS = ['#chan', 'nick', 'x', 'y', 'z']
+
+
+def named(k):
+    if k < 8:
+        return STR_NAMES[k]
+    return tuple(TUPLE_PARTS[i % 5] + ('' if i < 5 else str(i)) for i in range(k - 8))
+
+
+_NAME_BACK = {}
+for _k in range(0, 16):
+    _NAME_BACK[named(_k)] = _k
+
+
 def pyname(n):
-    return None if n is None else (n[1] if n[0] == 'a' else 'e%d' % n[1])
+    return None if n is None else (n[1] if n[0] == 'a' else named(n[1]))
 
 
 def canon_name(x):
-    return [0, x] if isinstance(x, int) else [1, int(x[1:])]
+    return [0, x] if isinstance(x, int) else [1, _NAME_BACK[x]]
+
+
+NAME_POOL = [0, 0, 0, 1, 1, 2, 3, 4, 8, 9, 10, 10, 11]
 
 
 class Tracker:
@@ -374,7 +395,7 @@ def d_model(out):
 
 # ---------------------------------------------------------------- generators
 def g_name(rng):
-    return ['n', rng.choice([0, 0, 1, 1, 2])] if rng.random() < 0.75 else ['a', rng.choice([0, 0, 1, 2, 3])]
+    return ['n', rng.choice(NAME_POOL)] if rng.random() < 0.75 else ['a', rng.choice([0, 0, 1, 2, 3])]
 
 
 def g_args(rng):
@@ -407,12 +428,12 @@ def g_api(rng, depth, tagc=[0]):
     if r < 0.45:
         args, kw = g_args(rng)
         ar, body = g_fn(rng, depth, args, kw)
-        nm = None if rng.random() < 0.3 else ['n', rng.choice([0, 0, 1, 1, 2])]
+        nm = None if rng.random() < 0.3 else ['n', rng.choice(NAME_POOL)]
         return ['add', tagc[0], ar, body, rng.choice([-3, -1, 0, 1, 1, 2, 2, 3, 4, 5]), nm, args, kw]
     if r < 0.65:
         args, kw = g_args(rng)
         ar, body = g_fn(rng, depth, args, kw)
-        nm = None if rng.random() < 0.2 else ['n', rng.choice([0, 1, 2])]
+        nm = None if rng.random() < 0.2 else ['n', rng.choice(NAME_POOL)]
         return ['per', tagc[0], ar, body, rng.choice([1, 1, 2, 3, 3, 5]), nm, rng.random() < 0.4, args, kw,
                 rng.choice([None, None, 1, 2, 2, 3, 3] + ([0] if rng.random() < 0.1 else []))]
     if r < 0.82:
@@ -439,6 +460,16 @@ CORPUS = [
     # witnesses of C18.F17 (fixed): reschedule must keep args/kwargs (fixed arity: TypeError swallowed; variadic: called with nothing)
     [['act', ['add', 1, 1, ['nop'], 1, ['n', 0], [7], []]], ['act', ['rs', ['n', 0], 2]], ['adv', 5], ['run']],
     [['act', ['add', 1, None, ['nop'], 1, ['n', 0], [7], [[1, 4]]]], ['act', ['rs', ['n', 0], 2]], ['adv', 5], ['run']],
+    # run()'s except handler must not raise whatever the event is called: raising callbacks registered under a tuple of
+    # 2 / 0 / 1 / 3 strs and under strs with % directives, each followed by events that must still run in the same run()
+    [['act', ['add', 1, None, ['raise'], 1, ['n', 10], [], []]], ['act', ['add', 2, None, ['nop'], 2, ['n', 0], [1], []]],
+     ['act', ['add', 3, None, ['nop'], 2, None, [], []]], ['adv', 5], ['run']],
+    [['act', ['add', 1, None, ['raise'], 1, ['n', 8], [], []]], ['act', ['add', 2, None, ['raise'], 1, ['n', 9], [], []]],
+     ['act', ['add', 3, None, ['raise'], 1, ['n', 11], [], []]], ['act', ['add', 4, None, ['raise'], 1, ['n', 3], [], []]],
+     ['act', ['add', 5, None, ['raise'], 1, ['n', 4], [], []]], ['act', ['add', 6, None, ['raise'], 1, ['n', 6], [], []]],
+     ['act', ['add', 7, None, ['nop'], 2, ['n', 1], [], []]], ['adv', 5], ['run']],
+    [['act', ['per', 1, 1, ['raise'], 2, ['n', 10], False, [5], [], 1]], ['act', ['add', 2, None, ['nop'], 3, ['n', 9], [], []]],
+     ['adv', 5], ['run'], ['act', ['rm', ['n', 10]]], ['act', ['rs', ['n', 9], 1]]],
     # Bag.v Examples ex_pull / ex_mixed, replayed on the real Schedule: a callback reschedules a later event (and another
     # adds one) to before the current time -> both fire in the same run(); a periodic event with count 3 among one-shots
     [['act', ['add', 1, None, ['rs', ['n', 1], -5], 1, ['n', 0], [], []]],
